@@ -3,16 +3,25 @@
 From Coq Require Import List ZArith Bool Arith.
 From NT Require Import Sx Rose.
 From NT Require Export Filter.
+From NTGen Require Import Generated.
 Import ListNotations.
 
 Definition Tz (id : Z) (i : info) (ch : list rt) : rt := T (Z.to_nat id) i ch.
 
-(* compact node term of the cases: identity, data object, data_id, children
+(* compact node terms of the cases: identity, data object, data_id, (kind,) children
    (nothing else of a node is read by the filter model or its observation) *)
 Definition Nd (id obj : Z) (d : did) (ch : list rt) : rt :=
   T (Z.to_nat id) (I obj obj 0 false [] d None []) ch.
+Definition Ndk (id obj : Z) (d : did) (k : list Z) (ch : list rt) : rt :=
+  T (Z.to_nat id) (I obj obj 0 false [] d (Some k) []) ch.
 
-Definition case08 := (forest * list (Z * raw) * option Z)%type.
+(* tree, what the predicate does on each node, start, TypedTree? *)
+Definition case08 := (forest * list (Z * raw) * option Z * bool)%type.
+
+(* a node re-created by add_child(n) / add(n) without a kind argument: unchanged in a plain Tree,
+   the default kind (read off the source: TypedTree.DEFAULT_CHILD_TYPE) in a TypedTree *)
+Definition remake (typed : bool) (i : info) : info :=
+  if typed then set_kind_i (Some DEFAULT_CHILD_TYPE) i else i.
 
 (* the predicate of a case: what it does on each node *)
 Definition rmap (m : list (Z * raw)) (n : nat) : raw :=
@@ -23,7 +32,7 @@ Definition rmap (m : list (Z * raw)) (n : nat) : raw :=
 
 (* a node of a copy: (allocation index relative to the call, data object, data_id, children) *)
 Fixpoint sx_copy (t : rt) : sx :=
-  match t with T id i ch => L [sx_nat id; A (i_obj i); sx_did (i_did i); L (map sx_copy ch)] end.
+  match t with T id i ch => L [sx_nat id; A (i_obj i); sx_did (i_did i); sx_kind (i_kind i); L (map sx_copy ch)] end.
 Definition sx_copies (f : forest) : sx := L (map sx_copy f).
 Definition sx_shapes (f : forest) : sx := L (map sx_shape f).
 
@@ -41,38 +50,40 @@ Definition sx_log (o : outcome forest) (l : list nat) : sx :=
   match o with Ok _ => sx_ids l | _ => L [A (-1)] end.
 
 Definition run08 (c : case08) : sx :=
-  let f := fst (fst c) in
-  let v := fun n => classify_cp (call_predicate (rmap (snd (fst c)) n)) in   (* as seen by _add_filtered *)
-  let w := fun n => classify_ip (call_predicate (rmap (snd (fst c)) n)) in   (* as seen by Node.filter *)
+  let f := fst (fst (fst c)) in
+  let m := snd (fst (fst c)) in
+  let mk := remake (snd c) in
+  let v := fun n => classify_cp (call_predicate (rmap m n)) in   (* as seen by _add_filtered *)
+  let w := fun n => classify_ip (call_predicate (rmap m n)) in   (* as seen by Node.filter *)
   let same := fun g : forest => g in
-  match snd c with
+  match snd (fst c) with
   | None =>
-      let r := api_filtered (Some v) f 1 in
-      let r' := api_copy (Some v) f 1 in
+      let r := api_filtered mk (Some v) f 1 in
+      let r' := api_copy mk (Some v) f 1 in
       let ip := filter_inplace w f in
       L [ L [sx_outcome same r; sx_outcome same r'];      (* Tree.filtered, Tree.copy(predicate=) *)
           sx_shapes f;                                    (* the source afterwards *)
           sx_shapes ip; sx_nat (length (ids ip));         (* Tree.filter *)
-          L [sx_log r (af_calls v f); sx_log r' (af_calls v f); sx_ids (ip_calls w f)];
+          L [sx_log r (af_calls v mk f); sx_log r' (af_calls v mk f); sx_ids (ip_calls w f)];
           (* without a predicate: Tree.copy(), Tree.filtered(None), Tree.filter(None) *)
-          L [sx_outcome same (api_copy None f 1); sx_err (api_filtered None f 1); sx_err (api_filter None f)] ]
+          L [sx_outcome same (api_copy mk None f 1); sx_err (api_filtered mk None f 1); sx_err (api_filter None f)] ]
   | Some z =>
       let n := Z.to_nat z in
       match find_node n f with
       | None => A (-1)%Z
       | Some t =>
           let g := rch t in
-          let top := fun x : forest => [T 1 (rinfo t) x] in     (* add_self=True: the start node on top *)
-          let r1 := api_filtered (Some v) g 2 in
-          let r1' := api_copy (Some v) g 2 in
-          let r0 := api_copy (Some v) g 1 in
+          let top := fun x : forest => [T 1 (mk (rinfo t)) x] in     (* add_self=True: new_tree.add(self) on top *)
+          let r1 := api_filtered mk (Some v) g 2 in
+          let r1' := api_copy mk (Some v) g 2 in
+          let r0 := api_copy mk (Some v) g 1 in
           let ip := map (upd_at n (filter_inplace w)) f in
           L [ L [sx_outcome top r1; sx_outcome top r1'; sx_outcome same r0];   (* Node.filtered, Node.copy(predicate=), Node.copy(add_self=False, predicate=) *)
               sx_shapes f;
               sx_shapes ip; sx_nat (length (ids ip));         (* Node.filter *)
-              L [sx_log r1 (af_calls v g); sx_log r1' (af_calls v g); sx_log r0 (af_calls v g); sx_ids (ip_calls w g)];
+              L [sx_log r1 (af_calls v mk g); sx_log r1' (af_calls v mk g); sx_log r0 (af_calls v mk g); sx_ids (ip_calls w g)];
               (* Node.copy(), Node.copy(add_self=False), Node.filtered(None), Node.filter(None) *)
-              L [sx_outcome top (api_copy None g 2); sx_outcome same (api_copy None g 1);
-                 sx_err (api_filtered None g 2); sx_err (api_filter None g)] ]
+              L [sx_outcome top (api_copy mk None g 2); sx_outcome same (api_copy mk None g 1);
+                 sx_err (api_filtered mk None g 2); sx_err (api_filter None g)] ]
       end
   end.
